@@ -51,6 +51,25 @@ IncreasingLaw(dims, sel) == (SelValid(dims, sel) /\ SelProper(sel)) =>
 FullLaw(dims) == Expected(dims, [k \in 1..Len(dims) |-> [start |-> 0, count |-> dims[k], stride |-> 1, block |-> 1]])
                    = [i \in 1..Prod(dims) |-> i - 1]
 
+\* Chunked storage: which chunks a partial read has to visit.  Chunks are named by their scaled coordinates (element
+\* coordinate \div chunk extent, per dimension).  The chunks that hold at least one selected element are the
+\* combinations of the chunks touched per dimension; their number is bounded by the number of selected elements,
+\* whatever the strides are.  The pinned code visited every chunk of the selection's bounding box instead (first chunk
+\* .. last chunk per dimension) and sized a slice by their number: BBoxBoundLaw is what that would need, and TLC
+\* refutes it with a selection of two elements a large stride apart.
+Touched1D(ch, s) == {Idx1D(s)[j] \div ch : j \in DOMAIN Idx1D(s)}
+BBox1D(ch, s) == (s.start \div ch)..((s.start + (s.count - 1) * s.stride + s.block - 1) \div ch)
+ChunkProduct(r, S(_)) == {c \in [1..r -> UNION {S(k) : k \in 1..r}] : \A k \in 1..r : c[k] \in S(k)}
+TouchedChunks(chunk, sel) == ChunkProduct(Len(sel), LAMBDA k : Touched1D(chunk[k], sel[k]))
+BBoxChunks(chunk, sel) == ChunkProduct(Len(sel), LAMBDA k : BBox1D(chunk[k], sel[k]))
+ChunkOfIndex(i, dims, chunk) == [k \in 1..Len(dims) |-> CoordOf(i, dims)[k] \div chunk[k]]
+\* every selected element lies in a touched chunk, and every touched chunk holds a selected element
+TouchedCoverLaw(dims, chunk, sel) == SelValid(dims, sel) =>
+  {ChunkOfIndex(Expected(dims, sel)[i], dims, chunk) : i \in DOMAIN Expected(dims, sel)} = TouchedChunks(chunk, sel)
+TouchedBoundLaw(dims, chunk, sel) == SelValid(dims, sel) => Cardinality(TouchedChunks(chunk, sel)) <= Len(Expected(dims, sel))
+TouchedInBBoxLaw(dims, chunk, sel) == SelValid(dims, sel) => TouchedChunks(chunk, sel) \subseteq BBoxChunks(chunk, sel)
+BBoxBoundLaw(dims, chunk, sel) == SelValid(dims, sel) => Cardinality(BBoxChunks(chunk, sel)) <= Len(Expected(dims, sel))
+
 \* which code path of dataset_read_hyperslab.go a selection takes (for the diagnosis only)
 PathOf(dims, sel, chunked) ==
   IF chunked THEN "chunked"
